@@ -13,6 +13,7 @@ from vmc.core import scratch
 from vmc.seams.sched import Fault, H5Hook
 
 ID = "C13"
+TECHNIQUE = 'exhaustive single-fault enumeration: one injected exception at every h5py call of the write path (call log of the fault-free run), every invalid-record position, every iterator-failure position, on the real implementation'
 LEVEL = "fault_enumeration"
 RULE = ("valid streams of m<=3 chunks of 1-2 pixels; (a) one invalid record of each kind (bin id = n, bin id = -1, lower-triangle pixel in "
         "symmetric mode, duplicate of a pixel of the same chunk with the same and with a different value) inserted at EVERY chunk index and EVERY position inside the chunk; (b) an "
